@@ -839,6 +839,21 @@ theorem C15_search_ordinals_le {σ V} (A : Automaton σ) (hA : A.CanMatchSound) 
   rw [termOrd_eq_keys]
   exact (findIdx_ordOf (keys m) p.2.1 hs hk).1
 
+/-- the same inside a file: whatever bytes follow the store block (the next store blocks), `get`
+returns the same addresses — the 8-byte window of `extract_bits` may reach into them, its mask cuts
+them off, and the reader's bounds check only gets easier -/
+theorem C15_store_block_get_tail (rs rb os ob : Nat) (ref : BlockAddr) (more : List BlockAddr)
+    (lastStop : Nat) (g : GroupFits rs rb os ob ref more lastStop) (rest : List UInt8) (i : Nat)
+    (hi : i ≤ more.length) :
+    (groupMeta rs rb os ob ref more).get (bitPack (groupFields rs rb os ob ref more lastStop) ++ rest) i
+      = some ⟨((ref :: more).getD i ref).firstOrd, ((ref :: more).getD i ref).start,
+              startAt more lastStop i⟩ :=
+  group_get_tail rs rb os ob ref more lastStop g rest i hi
+
+example : (groupMeta 100 5 10 3 ⟨7, 1000, 1090⟩ [⟨16, 1090, 1200⟩, ⟨27, 1200, 1310⟩]).get
+      (bitPack (groupFields 100 5 10 3 ⟨7, 1000, 1090⟩ [⟨16, 1090, 1200⟩, ⟨27, 1200, 1310⟩] 1310) ++ [255, 255, 255]) 2
+    = some ⟨27, 1200, 1310⟩ := by decide
+
 /-! ## insertion order (DESIGN §8, F6) -/
 
 /-- the writer accepts a key iff it is greater than the previous one — or both are empty and the
